@@ -59,6 +59,7 @@ fn framed_actions() -> Vec<Action> {
         Action::Print0,
         Action::FPrint("f".into()),
         Action::FPrintf("g".into(), vec![Fmt::Field(Field::NameNoStart)]),
+        Action::FPrint0("h".into()),
         Action::Print,
         // a newline inside but not at the end: still needs framing by the rule
         Action::Printf(vec![Fmt::Field(Field::NameNoStart), nl(), Fmt::Field(Field::SizeBytes)]),
